@@ -773,33 +773,21 @@ impl Compiler {
     ) -> Result<(), JsError> {
         let name_idx = self.builder.add_string(id.name.cheap_clone())?;
 
-        // Check if this variable is redirected to a register (for for-loop updates)
-        let redirect_reg = self.get_loop_var_redirect(&id.name);
-
         if *op == AssignmentOp::Assign {
             // Simple assignment
             self.compile_expression(right, dst)?;
 
-            if let Some(reg) = redirect_reg {
-                // Redirect: write to register instead of environment
-                self.builder.emit(Op::Move { dst: reg, src: dst });
-            } else {
-                self.builder.emit(Op::SetVar {
-                    name: name_idx,
-                    src: dst,
-                });
-            }
+            self.builder.emit(Op::SetVar {
+                name: name_idx,
+                src: dst,
+            });
         } else {
             // Compound assignment
-            // Load current value (from environment or redirect register)
-            if let Some(reg) = redirect_reg {
-                self.builder.emit(Op::Move { dst, src: reg });
-            } else {
-                self.builder.emit(Op::GetVar {
-                    dst,
-                    name: name_idx,
-                });
-            }
+            // Load current value
+            self.builder.emit(Op::GetVar {
+                dst,
+                name: name_idx,
+            });
 
             // Handle short-circuit operators specially
             match op {
@@ -835,15 +823,10 @@ impl Compiler {
                 }
             }
 
-            if let Some(reg) = redirect_reg {
-                // Redirect: write to register instead of environment
-                self.builder.emit(Op::Move { dst: reg, src: dst });
-            } else {
-                self.builder.emit(Op::SetVar {
-                    name: name_idx,
-                    src: dst,
-                });
-            }
+            self.builder.emit(Op::SetVar {
+                name: name_idx,
+                src: dst,
+            });
         }
 
         Ok(())
@@ -1064,18 +1047,11 @@ impl Compiler {
             Expression::Identifier(id) => {
                 let name_idx = self.builder.add_string(id.name.cheap_clone())?;
 
-                // Check if this variable is redirected to a register (for for-loop updates)
-                let redirect_reg = self.get_loop_var_redirect(&id.name);
-
-                // Load current value (from environment or redirect register)
-                if let Some(reg) = redirect_reg {
-                    self.builder.emit(Op::Move { dst, src: reg });
-                } else {
-                    self.builder.emit(Op::GetVar {
-                        dst,
-                        name: name_idx,
-                    });
-                }
+                // Load current value
+                self.builder.emit(Op::GetVar {
+                    dst,
+                    name: name_idx,
+                });
 
                 if !update.prefix {
                     // Postfix: save original value
@@ -1103,15 +1079,11 @@ impl Compiler {
                         });
                     }
 
-                    // Store updated value (to register or environment)
-                    if let Some(reg) = redirect_reg {
-                        self.builder.emit(Op::Move { dst: reg, src: dst });
-                    } else {
-                        self.builder.emit(Op::SetVar {
-                            name: name_idx,
-                            src: dst,
-                        });
-                    }
+                    // Store updated value
+                    self.builder.emit(Op::SetVar {
+                        name: name_idx,
+                        src: dst,
+                    });
 
                     // Return original value
                     self.builder.emit(Op::Move { dst, src: original });
@@ -1137,15 +1109,11 @@ impl Compiler {
                         });
                     }
 
-                    // Store and return updated value (to register or environment)
-                    if let Some(reg) = redirect_reg {
-                        self.builder.emit(Op::Move { dst: reg, src: dst });
-                    } else {
-                        self.builder.emit(Op::SetVar {
-                            name: name_idx,
-                            src: dst,
-                        });
-                    }
+                    // Store and return updated value
+                    self.builder.emit(Op::SetVar {
+                        name: name_idx,
+                        src: dst,
+                    });
 
                     self.builder.free_register(one);
                 }
